@@ -46,7 +46,7 @@ fn slot_churn(sim: &Sim, n: u32) {
 
 pub fn exec_op2(sim: &Sim, op: &Op, _in_cb: bool) {
     match op {
-        Op::InsertLifecycle { id, with_ping, synth, script, .. } => crate::life::insert_lifecycle(sim, *id, *with_ping, synth, script),
+        Op::InsertLifecycle { id, with_ping, synth, script, two, fail_step2, keep_rejected, .. } => crate::life::insert_lifecycle(sim, *id, *with_ping, synth, script, *two && *with_ping, *fail_step2, *keep_rejected),
         Op::InsertExecutor { id, script } => crate::exec::insert_executor(sim, *id, script),
         Op::Schedule { exec, task, pendings, script } => crate::exec::schedule(sim, *exec, *task, *pendings, script),
         Op::Wake(t) => crate::exec::wake(sim, *t),
@@ -77,6 +77,10 @@ pub fn exec_op2(sim: &Sim, op: &Op, _in_cb: bool) {
         Op::AdapterPeerWrite(id, n) => crate::adapter::peer_write(sim, *id, *n),
         Op::AdapterPeerRead(id, n) => crate::adapter::peer_read(sim, *id, *n),
         Op::AdapterPeerClose(id) => crate::adapter::peer_close(sim, *id),
+        Op::AdapterPeerLastWords(id, n) => {
+            crate::adapter::peer_write(sim, *id, *n);
+            crate::adapter::peer_close(sim, *id);
+        }
         Op::SendMany(id, n) => {
             for _ in 0..*n {
                 crate::ops::exec_op(sim, &Op::Send(*id), _in_cb);
